@@ -655,10 +655,10 @@ def oracle_history(ctx: Ctx, sc: dict, tr: dict, full: bool = False) -> dict:
             r = (h["status"] or {}).get(i["identity"])
             if r is None:
                 prev = (H.ph[k - 1]["status"] or {}).get(i["identity"]) if k > 0 else None
-                killer = [q for q in tr["requests"] if q["res"] == "peering" and q["method"] == "PATCH"
-                          and q.get("response") == 200 and abs(q["t"] + LAT - h["t"]) < 1e-9
-                          and i["identity"] in ((q.get("payload") or {}).get("status") or {})
-                          and ((q.get("payload") or {}).get("status") or {})[i["identity"]] is None]
+                # who removed it: the write that landed at that moment (the landing time is what the fake API recorded; with a
+                # delayed RESPONSE the write is applied at once, with a delayed request after the latency)
+                killer = [w for w in tr.get("writes", []) if abs(w["t"] - h["t"]) < 1e-9 and isinstance(w["patch"], dict)
+                          and i["identity"] in w["patch"] and w["patch"][i["identity"]] is None]
                 restarted = any(j["identity"] == i["identity"] and j["t_start"] < i["t_start"] for j in incs) or \
                     (i["identity"] in (sc.get("pre_status") or {}))
                 if killer and prev is not None and H.live(prev, h["t"]) and restarted and not H.late:
@@ -848,6 +848,11 @@ def oracle_history(ctx: Ctx, sc: dict, tr: dict, full: bool = False) -> dict:
     # ---- (H) STRICT: one change is not handled by two operators that both count as active -------------------------------
     # (also in the exit window, around every pause/resume, in every regime; tolerated only: the first one was killed, or
     #  one of the two was paused at that moment = the property's own "events already queued" exception)
+    def settling(i: dict, t: float) -> bool:
+        """Who blocks operator i (by the peering object itself) has changed within the last W before t."""
+        b = H.blockers(i, t)
+        return any(H.blockers(i, p) != b for p in [t - H.W] + H.change_points(t - H.W, t))
+
     by_change: dict[tuple, list] = {}
     for c in tr["calls"]:
         if c["kind"] in ("create", "update"):
@@ -861,12 +866,21 @@ def oracle_history(ctx: Ctx, sc: dict, tr: dict, full: bool = False) -> dict:
                     continue
                 i1, i2 = by_inc[c1["inc"]], by_inc[c2["inc"]]
                 gone1 = [x for x in (i1["t_killed"], H.t_fail.get(i1["inc"])) if x is not None and x <= c2["t"]]
-                yielded1 = any(v and c1["t"] <= t <= c2["t"] + H.W for (t, v) in H.pz.get(i1["inc"], []))    # told to pause: "queued events"
                 # the first handling was cut off by its operator's exit timeout (not finished when the operator was gone): at-least-once
                 cut1 = i1["t_stopped"] is not None and i1["t_stopped"] <= c2["t"] and (c1.get("t_end") is None or c1["t_end"] >= i1["t_stopped"] - LAT)
                 if cut1:
                     continue
-                if gone1 or yielded1 or H.paused_at(i1["inc"], c1["t"]) or H.paused_at(i1["inc"], c2["t"]) or H.paused_at(i2["inc"], c2["t"]):
+                if gone1 or H.paused_at(i1["inc"], c1["t"]) or H.paused_at(i1["inc"], c2["t"]) or H.paused_at(i2["inc"], c2["t"]):
+                    continue
+                # judged by the ground truth (the peering object itself), not by what the operators believed:
+                # (i) one of the two ought to be paused but the peer blocking it appeared less than W ago: they do not "see each
+                #     other" yet (the property's qualifier);
+                # (ii) the first one was rightly active, and was told to pause while it worked ("events already queued").
+                # An operator that is active although its blocker has been live all along (old view: F4) is NOT excused.
+                unseen = (H.expected_paused(i1, c1["t"]) and settling(i1, c1["t"])) or (H.expected_paused(i2, c2["t"]) and settling(i2, c2["t"]))
+                right1 = (not H.expected_paused(i1, c1["t"])) or settling(i1, c1["t"])
+                handover = right1 and any(v and c1["t"] <= t <= c2["t"] + H.W for (t, v) in H.pz.get(i1["inc"], []))
+                if unseen or handover:
                     continue
                 reported = True
                 what = (f"change {key[1]}(x={key[2]}) of {c1['name']} handled by {i1['name']} at {c1['t']} (until {c1.get('t_end')}) AND by "
@@ -1141,8 +1155,30 @@ def judge(sc: dict, tr: dict, full: bool = False) -> dict:
             continue
         ka.append([["C13.kasleep", TPS, kk["lifetime"], kk["jitter"]], sim_c13.ticks(kk["sleep"])])
         col.case(key={"ka-sim": [kk["lifetime"], kk["jitter"]]}, nontrivial=True)
+    facts: dict = {}
+    if full:
+        # plain facts of the run for the comparison with the Lean witnesses (an operator runs until its stop has COMPLETED)
+        H = Hist(sc, tr)
+
+        def run_end(i: dict) -> float:
+            return min(x for x in [i["t_killed"], i["t_stopped"], H.t_fail.get(i["inc"]), H.t_end] if x is not None)
+        moments = sorted({t for ev in H.pz.values() for (t, _v) in ev} | set(H.ph_t))
+        both: set = set()
+        bare: set = set()
+        for t in moments:
+            # active at t: the toggle set is off after the events at t, or was turned off at t (if only between two calls)
+            act = [i for i in tr["incs"] if i["inc"] in H.made and H.made[i["inc"]] <= t < run_end(i)
+                   and (H.paused_at(i["inc"], t) is False or any(tt == t and v is False and tt > H.made[i["inc"]] for (tt, v) in H.pz.get(i["inc"], [])))]
+            if len(act) >= 2:
+                both.add(tuple(sorted(i["name"] for i in act)))
+            st, _rv = H.status_at(t)
+            for i in tr["incs"]:
+                had = any(i["identity"] in (h["status"] or {}) for h in H.ph if i["t_start"] <= h["t"] <= t)
+                if had and i["t_start"] <= t < run_end(i) and i["identity"] not in st:
+                    bare.add(i["name"])
+        facts = {"both_active": sorted(both), "running_without_record": sorted(bare)}
     return {"judged": True, "failures": col.failures, "counts": col.counts, "cases": col.cases, "samples": col.samples,
-            "calls": calls, "ka": ka, "lts": lts, "sim_error": tr.get("sim_error")}
+            "calls": calls, "ka": ka, "lts": lts, "sim_error": tr.get("sim_error"), "facts": facts}
 
 
 def check_histories(ctx: Ctx, scenarios: list[dict], reqs: list, impls: list, wheres: list, flags: list,
@@ -1244,7 +1280,7 @@ def run_witness(ctx: Ctx, name: str, d: dict) -> None:
     for f in other[:3]:
         ctx.oracle_fail(f[1], f[2], f[3])
     ln = d.get("lean")
-    if ln:
+    if ln and hits:         # (a witness that no longer reproduces is a repaired finding: reported as stale by the framework)
         # the Lean witness of the same finding (a theorem proved by `decide` on this very label list), run through the
         # driver: what it claims of its end state must be what the replay on the real code showed
         try:
@@ -1254,15 +1290,17 @@ def run_witness(ctx: Ctx, name: str, d: dict) -> None:
             return
         snaps = out[1] if out and out[0] == "ok" else None
         model: Any = out
+        claims = ln["claims"]
         if snaps:
             last = snaps[-1]
             ops_ = last["ops"]
-            model = {"both_active": all(ops_.get(i, {}).get("alive") and not ops_.get(i, {}).get("paused") for i in ln["both_active"]),
-                     "running_without_record": sorted(i for i, o in ops_.items()
-                                                      if o["alive"] and i not in [e[0] for e in last["status"]])}
-        impl = {"both_active": bool(hits) or None, "running_without_record": ln["running_without_record"] if hits else None}
+            m_all = {"both_active": sum(1 for o in ops_.values() if o["alive"] and not o["paused"]) >= 2,
+                     "running_without_record": any(o["alive"] and i not in [e[0] for e in last["status"]] for i, o in ops_.items())}
+            model = {k: m_all[k] for k in claims}
+        facts = j.get("facts") or {}
+        impl = {k: bool(facts.get(k)) for k in claims}
         ctx.compare(f"C13 witness {name}: Lean run ({ln['theorem']}) vs replay on the real code", impl, model,
-                    {"scenario": d["scenario"], "witness": name, "lean": ln})
+                    {"scenario": d["scenario"], "witness": name, "lean": ln, "facts": facts})
         ctx.case(key={"witness": name}, nontrivial=True)
 
 
